@@ -16,8 +16,10 @@ func modelsC01(tier string) ([]*PktModel, []int) {
 	depth := []int{7, 6}
 	if tier == "thorough" {
 		depth = []int{10, 9}
-		models = append(models, core2("core2-tx-probes", props, "tx"))
-		depth = append(depth, 6)
+		core4 := core3("core4", props, "try")
+		core4.Names = []string{A, B, C, D}
+		models = append(models, core2("core2-tx-probes", props, "tx"), withCleans(core2("core2-cleans", props, "try"), 3), withCleans(core3("core3-cleans", props, "try"), 2), core4)
+		depth = append(depth, 6, 10, 8, 7)
 	}
 	return models, depth
 }
@@ -25,7 +27,7 @@ func modelsC01(tier string) ([]*PktModel, []int) {
 func CheckC01(tier string) int {
 	models, depth := modelsC01(tier)
 
-	return RunPkt("C01", tier, models, depth, tierBudget(tier, 80*time.Second, 12*time.Minute), append([]string{
+	return RunPkt("C01", tier, models, depth, tierBudget(tier, 80*time.Second, 20*time.Minute), append([]string{
 		"probe verdicts come from an independent oracle: a receive message is legitimate iff the chain the packet's own fields select as previous hop holds sha256(data) under commitments/src/dst/sequences/seq and the proof is that chain's proof of that key at its newest height (known to the verifying client)",
 		"port and relay-chain alterations are judged by C13, not here",
 	}, commonAssumptions...))
